@@ -41,6 +41,7 @@ namespace mon
       const char* prefixes;   // context matrix: selector bytes, one per inherited-mode context; every input = selector + body ("" = none)
       const signed char* akinds;   // per registry id, for the variant compiled in (may be null)
       const signed char* akinds_b; // the same for action family B (never contains change_action kinds)
+      const char* const* mif;      // must_if messages per registry id (null = none), used when the configuration says so
       const signed char* sels;     // parse-tree selector per registry id: 0 not selected, 1 store, 2 remove_content, 3 fold_one, 4 discard_empty
       unsigned salt;
       unsigned features;      // F_* below
@@ -64,6 +65,7 @@ namespace mon
       int client = 0;           // 1: run through coverage<>, 2: standard_trace, 3: complete_trace (monitor control wrapped by state_control)
       bool buf = false;
       int bufset = 0;           // 0: memory eager/lazy + buffer Chunk 1 and 3; 1: buffer Chunk 64, stream and file based inputs
+      bool mustif = false;      // monitor control on top of must_if< Errors >::control: rules with a message raise from their failure hook
       bool top_nothing = false; // the top-level call uses apply_mode::nothing and rewind_mode::required (actions attached but disabled)
    };
 
